@@ -152,3 +152,108 @@ impl Director for ScriptDirector {
         }
     }
 }
+
+/// Script first, then a benign continuation driven by the random director's broker model
+/// (reconnect with the session present, answer everything, poll until quiescent).
+pub struct ChainDirector {
+    script: ScriptDirector,
+    tail: crate::rnd::RandomDirector,
+    in_tail: bool,
+    /// the client departed from the script (conformance mismatch): reported as a marker event,
+    /// then the benign continuation takes over so that the property monitors still see how the
+    /// session behaves from here
+    note: Option<String>,
+}
+
+impl ChainDirector {
+    pub fn new(steps: Vec<Step>, tail: crate::rnd::RandomDirector) -> Self {
+        let mut script = ScriptDirector::new(steps);
+        script.cancel_at_end = true;
+        Self {
+            script,
+            tail,
+            in_tail: false,
+            note: None,
+        }
+    }
+}
+
+impl Director for ChainDirector {
+    fn write(&mut self, view: &View, offered: &[u8]) -> IoDec {
+        if self.in_tail {
+            self.tail.write(view, offered)
+        } else {
+            self.script.write(view, offered)
+        }
+    }
+
+    fn read(&mut self, view: &View, want: usize) -> IoDec {
+        if self.in_tail {
+            self.tail.read(view, want)
+        } else {
+            self.script.read(view, want)
+        }
+    }
+
+    fn flush(&mut self, view: &View) -> IoDec {
+        if self.in_tail {
+            self.tail.flush(view)
+        } else {
+            self.script.flush(view)
+        }
+    }
+
+    fn pending(&mut self, view: &View) -> PendDec {
+        if !self.in_tail {
+            match self.script.pending(view) {
+                PendDec::Mismatch(msg) => {
+                    self.in_tail = true;
+                    self.note = Some(msg);
+                }
+                other => return other,
+            }
+        }
+        self.tail.pending(view)
+    }
+
+    fn top(&mut self, view: &View) -> TopDec {
+        if !self.in_tail {
+            match self.script.top(view) {
+                TopDec::End => self.in_tail = true,
+                TopDec::Mismatch(msg) => {
+                    self.in_tail = true;
+                    self.note = Some(msg);
+                }
+                other => return other,
+            }
+        }
+        if let Some(msg) = self.note.take() {
+            return TopDec::Note(serde_json::json!({"e":"departed","msg":msg}));
+        }
+        self.tail.top(view)
+    }
+
+    fn wrote(&mut self, bytes: &[u8]) {
+        if self.in_tail {
+            self.tail.wrote(bytes);
+        }
+    }
+
+    fn returned(&mut self, op: &str, result: &serde_json::Value, obs: &serde_json::Value) {
+        self.tail.returned(op, result, obs);
+    }
+
+    fn new_transport(&mut self) {
+        if self.in_tail {
+            self.tail.new_transport();
+        }
+    }
+
+    fn spin_adv(&mut self, view: &View, n: u32) -> Option<u64> {
+        if self.in_tail {
+            self.tail.spin_adv(view, n)
+        } else {
+            self.script.spin_adv(view, n)
+        }
+    }
+}
